@@ -1,9 +1,33 @@
-(* Properties/C17.v — statements only.  C17: value serialisation round trips. *)
+(* Properties/C17.v — statements only.  C17: value serialisation round trips
+   (string.pack/unpack/packsize, %q + load, tostring/tonumber).
+   Models: GV.Pack.Model (packformatreader.go, packer.go, unpacker.go, packsize.go),
+   GV.Pack.QuoteModel (strconv.Quote as used by format.go's quote(); Lua string
+   literals per manual 3.1), GV.Pack.NumStrModel. *)
 From Coq Require Import ZArith List.
-From GV Require Import Pack.NumStrModel Pack.Model Pack.Bytes.
+From GV Require Import Pack.NumStrModel Pack.Model Pack.Bytes Pack.IntRound Pack.QuoteModel Pack.QuoteProofs.
 Import ListNotations.
 Open Scope Z_scope.
 
+(* binary.Read after binary.Write, either byte order, any width *)
 Theorem C17_dec_enc : forall lt k v, dec lt (enc lt k v) = v mod 256 ^ Z.of_nat k.
 Proof. exact dec_enc. Qed.
 Print Assumptions C17_dec_enc.
+
+(* Integer core of unpack∘pack: for every width k = 1..16, both byte orders, every int64 v
+   that packInt accepts (i[k]; b h l j are the k = 1, 2, 8 instances), with any bytes
+   written before and any bytes following, readVarInt at the position where packInt
+   started returns exactly v and stops exactly where packInt stopped. *)
+Theorem C17_unpack_pack_int_partial : forall (k : nat) v s s' t us kont,
+  (1 <= k <= 16)%nat -> - H <= v < H ->
+  packInt (Z.of_nat k) v s = PCont s' ->
+  little (u_rd us) = little (p_rd s) -> u_j us = len (p_w s) ->
+  readVarInt (p_w s' ++ t) (Z.of_nat k) us kont = kont v (u_set_j us (len (p_w s'))).
+Proof. exact int_roundtrip. Qed.
+Print Assumptions C17_unpack_pack_int_partial.
+
+(* load(%q s) = s is false of the code as it stands (any IsPrint that rejects U+200B) *)
+Theorem C17_quote_load_string_refuted :
+  forall is_print, is_print 8203 = false ->
+  exists s, lua_string_literal (quote is_print s) <> Some s.
+Proof. exact quote_load_string_refuted. Qed.
+Print Assumptions C17_quote_load_string_refuted.
